@@ -10,7 +10,7 @@ from framework import REPO, ROOT
 
 TIE = ["Nsq.Tie.Proto", "Nsq.Tie.ProtoBase10"]
 PROPS = ["Nsq.Props.C09"]
-HARNESS = ["e3/infra_test.go", "e3/proto_test.go", "e3/http_test.go"]
+HARNESS = ["e3/infra_test.go", "e3/proto_test.go", "e3/http_test.go", "e3/httpfull_test.go"]
 NAME_RE = re.compile(rb"^[.a-zA-Z0-9_-]+(#ephemeral)?$")
 
 
